@@ -419,10 +419,17 @@ func tvExecute(r tvRun) tvOutcome {
 		snapshot()
 		return out
 	}
-	cancel()
-	if now, ok := tvSettleGoroutines(before); !ok {
-		out.leak = fmt.Sprintf("%d goroutines before the call, %d still alive %v after it returned", before, now, tvSettle)
+	// the caller's context is still alive here: what BreadthFirst started must be gone because BreadthFirst returned, not
+	// because the caller cancels afterwards
+	if tvLeaksSeen.Load() < 5 {
+		if now, ok := tvSettleGoroutines(before); !ok {
+			tvLeaksSeen.Add(1)
+			out.leak = fmt.Sprintf("%d goroutines before the call, %d still alive %v after it returned (the caller's context not yet cancelled)", before, now, tvSettle)
+		}
 	}
+	// (after five leaks have been reported the wait for goroutines to settle is skipped: every further leaking run would
+	// cost the full settle time and the verdict is already in)
+	cancel()
 	if r.rootSeg {
 		descendLock.Lock()
 		out.fin = graph.Tree{Root: rootSegment}.SizeOf()
@@ -435,6 +442,8 @@ func tvExecute(r tvRun) tvOutcome {
 	snapshot()
 	return out
 }
+
+var tvLeaksSeen atomic.Int64
 
 func tvDiff(got, want map[string]int) (missing, extra []string) {
 	for k, w := range want {
